@@ -157,6 +157,13 @@ func main() {
 			}()
 			d.run(w, r)
 			genericRules(w, r, id)
+			if *tier == "thorough" && os.Getenv("VERIF_NOSELFVAL") == "" {
+				t2 := time.Now()
+				sv := selfValidate(w, *verif, id)
+				sv.WallS = time.Since(t2).Seconds()
+				r.Extra["self_validation"] = sv
+				fmt.Printf("self-validation property=%s seeded=%d reported=%d not-reported=%v out-of-reach=%d benign=%d silent=%d alarms=%v skipped=%d (%.0fs)\n", id, sv.Seeds, sv.Detected, sv.Missed, len(sv.DocumentedNA), sv.Benign, sv.Silent, sv.Alarms, len(sv.Skipped), sv.WallS)
+			}
 		}()
 		wall := time.Since(t1).Seconds()
 		if len(ids) == 1 {
